@@ -91,6 +91,12 @@ def gen(rng, tier):
     cases = []
     for g in range(n):
         s = G.gen_asym_joint(rng) if g % 4 == 3 else G.gen_solvable(rng)
+        many, tiny = (g == n - 1), (g == n - 2)
+        if many:
+            # a bar cut into 27 unequal finite elements, also drawn from its other end
+            s = G.gen_many_positions(rng, 16, 0)
+        if tiny:
+            s = G.gen_portal(rng)
         if g % 4 == 0:
             # (these groups are turned by a general angle: supports and links that treat dx and dy alike)
             for _ in range(20):
@@ -172,6 +178,15 @@ def gen(rng, tier):
                 if b["id"] not in rev:
                     rev.append(b["id"])
         w = (g % 3 == 0)
+        err = ERR
+        if many and s.bars[0]["id"] not in rev:
+            rev.append(s.bars[0]["id"])
+        if tiny:
+            # a model whose loads are a billionth of the usual ones (and the error asked for with them): forces have no natural size
+            for l in s.loads:
+                for key in (("v",) if l["kind"] == "c" else ("v0", "v1")):
+                    l[key] = l[key] * Fr(1, 10 ** 9)
+            err = "1e-15"
         group = [("base", s, False, None), ("translated", translate(s, dx, dy), False, (str(dx), str(dy))),
                  ("rotated", rotate(s, cr, sr), False, (str(cr), str(sr))), ("mirrored", mirror_x(s), False, None),
                  ("reversed", reverse(s, rev), False, rev)]
@@ -182,7 +197,7 @@ def gen(rng, tier):
             if role == "end":
                 cases.append({"Text": st.text(), "kind": "end", "group": g, "role": "end", "Weight": False, "Solve": False})
                 continue
-            c = core.case_from_struct(st, Weight=weight, Solve=True, Assemble=True, Error=ERR)
+            c = core.case_from_struct(st, Weight=weight and not tiny, Solve=True, Assemble=True, Error=err)
             c.update(group=g, role=role, par=par)
             cases.append(c)
     return cases
